@@ -24,6 +24,15 @@ Mirrors, line by line (current source, i.e. including the two `fix:` commits of 
 Compile-time options come from NV/Gen/C20.lean (`autoTrustBackbone`; AUTO_SETEUID is recorded there, the source has
 no code depending on it - the plugin checks that).
 
+Nested creation (round 2): create() of a scripted object runs the op list the case attached to its file name
+(`Policy.script`), with the object under construction as actor and the uid/euid it has at that moment; the model
+runs these scripts recursively (`exec`, bounded by fuel; with fuel 0 scripts are skipped) and emits one `StepRec`
+per SEGMENT (the events between two uid snapshots): creation segment, the nested ops' segments, result segment.
+Inside a create() script the harness refuses destruct/reload_object, and it never lets two live objects share a
+registry id (`nobj`); the model mirrors both.  The inherit-chain counter of load_object (`num_objects_this_thread`,
+limit MaxInheritDepth = 30, reset by clone_object and by every error) is not modelled: the generated nestings stay
+far below it, where it has no influence on the outcome.
+
 The mudlib side is the scripted harness of harness/mudlib/c20 (registry of object ids, one op per step, `new` line
 from create(), uid snapshot after every step); master applies are an oracle `Policy`.
 -/
@@ -54,12 +63,6 @@ def Ans.approved : Ans → Bool
   | .arr => true
   | .err => false
   | .none => false
-
-/-- master policy oracle: answers may depend on the step number (policies are switchable), on the name passed
-    to creator_file, and on (object, uid) for valid_seteuid -/
-structure Policy where
-  cf : Nat → String → Ans
-  vs : Nat → Oid → Name → Ans
 
 /-- mudlib configuration: get_root_uid() and get_bb_uid() of the master (backbone may be unset) -/
 structure Cfg where
@@ -100,6 +103,14 @@ inductive Op where
   | reload (target : Oid)
   deriving Repr, BEq, DecidableEq
 
+/-- master policy oracle: answers may depend on the step number (policies are switchable), on the name passed
+    to creator_file, and on (object, uid) for valid_seteuid; `script` is the op list create() of the object with
+    that file name runs (blueprint: its path, clone: path ++ "#") -/
+structure Policy where
+  cf : Nat → String → Ans
+  vs : Nat → Oid → Name → Ans
+  script : Nat → String → List Op
+
 inductive Err where
   | noEuidLoad | noEuidClone | exportZero | badArg | policy
   deriving Repr, BEq, DecidableEq
@@ -127,6 +138,7 @@ structure StepRec where
   res : Option Res := none
   snap : Option (List Obj) := none
   crash : Bool := false
+  first : Bool := true          -- this segment starts the op (rendering only)
   deriving Repr, BEq, DecidableEq
 
 /-! registry: association list keyed by `oid` -/
@@ -175,10 +187,6 @@ def crashes (creations : List Creation) (snap : List Obj) : Bool :=
     | some m => m.uid.isNone
     | none => false) || snap.any (fun o => o.uid.isNone)
 
-/-- close a step: uid snapshot of every registered object (getuid on each) -/
-def fin (w : World) (r : StepRec) : World × StepRec :=
-  (w, { r with snap := some w.objs, crash := crashes r.creations w.objs })
-
 /-- master creator_file + give_uid_to_object + create() for one new object;
     third component: false when the master apply raised an error -/
 def create (cfg : Cfg) (pol : Policy) (i : Nat) (w : World) (creator : Obj) (oid : Oid) (name : String)
@@ -213,7 +221,9 @@ def doExport (w : World) (A : Obj) (t : Oid) : World × List Creation × Option 
 
 def doLoad (cfg : Cfg) (pol : Policy) (i : Nat) (w : World) (A : Obj) (p : Path) :
     World × List Creation × Option (Oid × Name × Ans) × Res :=
-  if p.name ∈ w.loaded then
+  -- harness: an object that would be registered under a taken id is not loaded
+  if (p.name ∉ w.loaded ∨ p.name ∈ w.half) ∧ getO w.objs p.oid ≠ none then (w, [], none, .nobj)
+  else if p.name ∈ w.loaded then
     if p.name ∈ w.half then
       -- found in the object table but never created: the harness initialises it late (create() body)
       let o : Obj := { oid := p.oid, name := p.name, uid := some "NONAME", euid := none }
@@ -226,25 +236,25 @@ def doLoad (cfg : Cfg) (pol : Policy) (i : Nat) (w : World) (A : Obj) (p : Path)
     let (w1, c, ok) := create cfg pol i w A p.oid p.name true
     (w1, [c], none, if ok then .oid p.oid else .err .policy)
 
-def doClone (cfg : Cfg) (pol : Policy) (i : Nat) (w : World) (A : Obj) (newOid : Oid) (p : Path) :
-    World × List Creation × Option (Oid × Name × Ans) × Res :=
-  if newOid ∈ reservedOids then (w, [], none, .nobj)
-  else if A.oid ≠ masterOid ∧ A.euid = none then (w, [], none, .err .noEuidClone)
+/-- harness guards and the euid test at the top of clone_object; `none` = go on -/
+def clonePre (w : World) (A : Obj) (newOid : Oid) (p : Path) : Option Res :=
+  if newOid ∈ reservedOids ∨ getO w.objs newOid ≠ none then some .nobj
+  else if p.name ∉ w.loaded ∧ getO w.objs p.oid ≠ none then some .nobj
+  else if A.oid ≠ masterOid ∧ A.euid = none then some (.err .noEuidClone)
+  else none
+
+/-- find_or_load_object of the blueprint inside clone_object -/
+def cloneBp (cfg : Cfg) (pol : Policy) (i : Nat) (w : World) (A : Obj) (p : Path) : World × List Creation × Bool :=
+  if p.name ∈ w.loaded then (w, [], true)
+  else if p.exists = false then (w, [], false)
   else
-    -- find_or_load_object: the blueprint
-    let (w1, cs, ok) :=
-      if p.name ∈ w.loaded then (w, [], true)
-      else if p.exists = false then (w, [], false)
-      else
-        let (w1, c, ok) := create cfg pol i w A p.oid p.name true
-        (w1, [c], ok)
-    if ok = false then
-      (w1, cs, none, if cs.isEmpty then .int 0 else .err .policy)
-    else
-      let name := p.name ++ "#" ++ toString w1.cloneSeq
-      let w2 := { w1 with cloneSeq := w1.cloneSeq + 1 }
-      let (w3, c, ok2) := create cfg pol i w2 A newOid name false
-      (w3, cs ++ [c], none, if ok2 then .oid newOid else .err .policy)
+    let x := create cfg pol i w A p.oid p.name true
+    (x.1, [x.2.1], x.2.2)
+
+/-- the clone itself: make_new_name, give_uid_to_object, create() -/
+def cloneSelf (cfg : Cfg) (pol : Policy) (i : Nat) (w : World) (A : Obj) (newOid : Oid) (p : Path) :
+    World × Creation × Bool :=
+  create cfg pol i { w with cloneSeq := w.cloneSeq + 1 } A newOid (p.name ++ "#" ++ toString w.cloneSeq) false
 
 def doDest (w : World) (t : Oid) : World × List Creation × Option (Oid × Name × Ans) × Res :=
   match getO w.objs t with
@@ -262,34 +272,123 @@ def doReload (w : World) (t : Oid) : World × List Creation × Option (Oid × Na
       let o : Obj := { T with euid := none }
       ({ w with objs := setO w.objs o }, [{ name := T.name, ans := none, made := some o }], none, .int 1)
 
-def doOp (cfg : Cfg) (pol : Policy) (i : Nat) (w : World) (A : Obj) (op : Op) :
-    World × List Creation × Option (Oid × Name × Ans) × Res :=
-  match op with
-  | .seteuidInt n => doSeteuidInt w A n
-  | .seteuidStr s => doSeteuidStr pol i w A s
-  | .exportUid t => doExport w A t
-  | .load p => doLoad cfg pol i w A p
-  | .clone o p => doClone cfg pol i w A o p
-  | .dest t => doDest w t
-  | .reload t => doReload w t
+/-- one segment record: what happened between two uid snapshots, in the context (actor, op) of the innermost
+    running op; closed by the snapshot of every registered object (getuid on each) -/
+def seg (w1 : World) (a : Oid) (op : Op) (vs : Option (Oid × Name × Ans)) (cs : List Creation) (res : Option Res)
+    (first : Bool) : StepRec :=
+  { actor := a, op := op, vs := vs, creations := cs, res := res, snap := some w1.objs,
+    crash := crashes cs w1.objs, first := first }
+
+/-- file-name key of the create() script: clones share `<path>#` -/
+def scriptKey (name : String) : String :=
+  match name.splitOn "#" with
+  | [b, _] => b ++ "#"
+  | _ => name
+
+/-- runner of a create() script: world, acting object id, script key -/
+abbrev Sub := World → Oid → String → World × List StepRec
+
+def single (a : Oid) (op : Op) (x : World × List Creation × Option (Oid × Name × Ans) × Res) : World × List StepRec :=
+  (x.1, [seg x.1 a op x.2.2.1 x.2.1 (some x.2.2.2) true])
+
+/-- the object a one-creation phase really created (creator_file was asked and create() ran) -/
+def createdNow : List Creation → Option Obj
+  | [c] => if c.ans.isSome then c.made else none
+  | _ => none
+
+def execLoad (cfg : Cfg) (pol : Policy) (i : Nat) (sub : Sub) (w : World) (a : Oid) (A : Obj) (p : Path) :
+    World × List StepRec :=
+  let x := doLoad cfg pol i w A p
+  match createdNow x.2.1 with
+  | none => single a (.load p) x
+  | some o =>
+    let y := sub x.1 o.oid p.name
+    (y.1, seg x.1 a (.load p) none x.2.1 none true :: y.2 ++ [seg y.1 a (.load p) none [] (some x.2.2.2) false])
+
+/-- second half of clone_object from world `w` (after the blueprint's create() script): the clone is made by the
+    same object `A'` with the uids it has now, then the clone's create() script runs -/
+def cloneTail (cfg : Cfg) (pol : Policy) (i : Nat) (sub : Sub) (w : World) (a : Oid) (A' : Obj) (newOid : Oid)
+    (p : Path) (first : Bool) : World × List StepRec :=
+  let op := Op.clone newOid p
+  let c := cloneSelf cfg pol i w A' newOid p
+  if c.2.2 = false then (c.1, [seg c.1 a op none [c.2.1] (some (.err .policy)) first])
+  else
+    let y := sub c.1 newOid (p.name ++ "#")
+    (y.1, seg c.1 a op none [c.2.1] none first :: y.2 ++ [seg y.1 a op none [] (some (.oid newOid)) false])
+
+def execClone (cfg : Cfg) (pol : Policy) (i : Nat) (sub : Sub) (w : World) (a : Oid) (A : Obj) (newOid : Oid)
+    (p : Path) : World × List StepRec :=
+  let op := Op.clone newOid p
+  match clonePre w A newOid p with
+  | some r => (w, [seg w a op none [] (some r) true])
+  | none =>
+    let b := cloneBp cfg pol i w A p
+    if b.2.2 = false then
+      (b.1, [seg b.1 a op none b.2.1 (some (if b.2.1.isEmpty then .int 0 else .err .policy)) true])
+    else
+      match b.2.1 with
+      | [] => cloneTail cfg pol i sub b.1 a A newOid p true
+      | _ :: _ =>
+        -- blueprint created just now: its segment and its create() script
+        let y := sub b.1 p.oid p.name
+        -- current_object is the same object; its uids are read when give_uid_to_object runs
+        let A' := (getO y.1.objs a).getD A
+        let t := cloneTail cfg pol i sub y.1 a A' newOid p false
+        (t.1, seg b.1 a op none b.2.1 none true :: y.2 ++ t.2)
+
+def execReload (sub : Sub) (w : World) (a : Oid) (t : Oid) : World × List StepRec :=
+  let x := doReload w t
+  match x.2.1 with
+  | [c] =>
+    (match c.made with
+     | some o =>
+       let y := sub x.1 o.oid (scriptKey o.name)
+       (y.1, seg x.1 a (.reload t) none x.2.1 none true :: y.2 ++ [seg y.1 a (.reload t) none [] (some x.2.2.2) false])
+     | none => single a (.reload t) x)
+  | _ => single a (.reload t) x
+
+/-- one op of `a`, with `sub` running the create() scripts of the objects it makes; `nested` = the op is itself
+    part of a create() script (destruct / reload_object refused by the harness) -/
+def execWith (cfg : Cfg) (pol : Policy) (i : Nat) (sub : Sub) (nested : Bool) (w : World) (a : Oid) (op : Op) :
+    World × List StepRec :=
+  match getO w.objs a with
+  | none => (w, [seg w a op none [] (some .nobj) true])
+  | some A =>
+    match op with
+    | .seteuidInt n => single a op (doSeteuidInt w A n)
+    | .seteuidStr s => single a op (doSeteuidStr pol i w A s)
+    | .exportUid t => single a op (doExport w A t)
+    | .load p => execLoad cfg pol i sub w a A p
+    | .clone o p => execClone cfg pol i sub w a A o p
+    | .dest t => if nested then (w, [seg w a op none [] (some .nobj) true]) else single a op (doDest w t)
+    | .reload t => if nested then (w, [seg w a op none [] (some .nobj) true]) else execReload sub w a t
+
+def runScript (f : World → Oid → Op → World × List StepRec) (w : World) (o : Oid) : List Op → World × List StepRec
+  | [] => (w, [])
+  | op :: ops =>
+    let r := f w o op
+    let r2 := runScript f r.1 o ops
+    (r2.1, r.2 ++ r2.2)
+
+/-- ops with nested create() scripts, recursion bounded by fuel (fuel 0: scripts are skipped) -/
+def exec (cfg : Cfg) (pol : Policy) (i : Nat) : Nat → Bool → World → Oid → Op → World × List StepRec
+  | 0, nested, w, a, op => execWith cfg pol i (fun w _ _ => (w, [])) nested w a op
+  | fuel + 1, nested, w, a, op =>
+    execWith cfg pol i (fun w o key => runScript (exec cfg pol i fuel true) w o (pol.script i key)) nested w a op
 
 /-- one harness step `do <actor> <op>` -/
-def step (cfg : Cfg) (pol : Policy) (i : Nat) (w : World) (a : Oid) (op : Op) : World × StepRec :=
-  match getO w.objs a with
-  | none => fin w { actor := a, op := op, res := some .nobj }
-  | some A =>
-    let (w1, cs, vs, res) := doOp cfg pol i w A op
-    fin w1 { actor := a, op := op, vs := vs, creations := cs, res := some res }
+def step (cfg : Cfg) (pol : Policy) (fuel : Nat) (i : Nat) (w : World) (a : Oid) (op : Op) : World × List StepRec :=
+  exec cfg pol i fuel false w a op
 
 /-- the trace of a history from world `w` (step numbers from `i`); a crashed driver performs nothing more -/
-def runFrom (cfg : Cfg) (pol : Policy) : Nat → World → List (Oid × Op) → List StepRec
+def runFrom (cfg : Cfg) (pol : Policy) (fuel : Nat) : Nat → World → List (Oid × Op) → List StepRec
   | _, _, [] => []
   | i, w, (a, op) :: rest =>
-    let (w1, r) := step cfg pol i w a op
-    r :: (if r.crash then [] else runFrom cfg pol (i + 1) w1 rest)
+    let x := step cfg pol fuel i w a op
+    x.2 ++ (if x.2.any (·.crash) then [] else runFrom cfg pol fuel (i + 1) x.1 rest)
 
 /-- the event trace of a history -/
-def events (cfg : Cfg) (pol : Policy) (hist : List (Oid × Op)) : List StepRec :=
-  runFrom cfg pol 0 (World.init cfg) hist
+def events (cfg : Cfg) (pol : Policy) (fuel : Nat) (hist : List (Oid × Op)) : List StepRec :=
+  runFrom cfg pol fuel 0 (World.init cfg) hist
 
 end NV.C20
